@@ -22,7 +22,7 @@ Record link (P : prims) (S : sender) (R : receiver) : Prop := {
   lk_lim_b : src_max_cert <= lim_bstring (r_limits R);
   lk_utf8 : forall p, p_utf8 P (src_uri p) = true;
   (* HMAC output length; AES-CBC without padding is length preserving and invertible *)
-  lk_mac_len : forall k d, len (p_mac P (s_policy S) k d) = src_sym_sig (s_policy S);
+  lk_mac_len : s_policy S <> PNone -> forall k d, len (p_mac P (s_policy S) k d) = src_sym_sig (s_policy S);
   lk_aes : forall d, p_aes_dec P (s_enckey S) (p_aes_enc P (s_enckey S) d) = d;
   lk_aes_len : forall d, len (p_aes_enc P (s_enckey S) d) = len d;
   (* the receiver verifies / decrypts with the keys the sender signs / encrypts with *)
@@ -241,7 +241,7 @@ Section Link.
       replace (len plain + 0 + ss - src_sym_sig (s_policy S)) with (len plain + 0) by (fold ss; lia).
       fold ss.
       rewrite take_app_exact by (rewrite len_framed, len_nil; lia).
-      rewrite (lk_mac_len _ _ _ L). fold ss. rewrite Z.eqb_refl. cbn [negb].
+      rewrite (lk_mac_len _ _ _ L Hp). fold ss. rewrite Z.eqb_refl. cbn [negb].
       destruct t; try congruence; rewrite Hm; reflexivity.
     Qed.
 
@@ -258,7 +258,7 @@ Section Link.
       pose proof (sym_sig_vals _ Hp) as [Hss _]. fold ss in Hss.
       pose proof len_plain_u32 as Hu. pose proof len_plain as Hl. pose proof len_sh_sym as Hsh.
       set (X := framed (len plain + ss) []). set (tag := p_mac P (s_policy S) (s_sigkey S) X).
-      assert (Htag : len tag = ss) by apply (lk_mac_len _ _ _ L).
+      assert (Htag : len tag = ss) by apply (lk_mac_len _ _ _ L Hp).
       assert (HX : len X = len plain) by (unfold X; rewrite len_framed, len_nil; lia).
       assert (Hbig : len plain + ss < U32) by (rewrite Hl, Hsh; unfold U32; lia).
       assert (Hph : parse_hdr (X ++ tag) = Ok ({| h_type := t; h_final := fin; h_size := len plain + ss; h_chan := s_chan S |}, sh ++ SQ ++ body ++ tag)).
@@ -319,7 +319,7 @@ Section Link.
       replace (len plain + 0 + (pad + ss) - ss) with (len plain + 0 + pad) by lia.
       rewrite <- (framed_app _ [] (padding_bytes pad 1)). cbn [app]. fold X.
       rewrite take_app_exact by (unfold X; rewrite len_framed, Hlp; lia).
-      rewrite (lk_mac_len _ _ _ L). fold ss. rewrite Z.eqb_refl. cbn [negb].
+      rewrite (lk_mac_len _ _ _ L Hp). fold ss. rewrite Z.eqb_refl. cbn [negb].
       fold full.
       assert (HX : len X = len plain + pad) by (unfold X; rewrite len_framed, Hlp; lia).
       fold sh. change src_chunk_header with 12. rewrite HX, Hl, Hsh.
@@ -340,7 +340,7 @@ Section Link.
       set (N := len plain + pad + ss).
       set (X := framed N (padding_bytes pad 1)). set (tag := p_mac P (s_policy S) (s_sigkey S) X).
       set (full := X ++ tag).
-      assert (Htag : len tag = ss) by apply (lk_mac_len _ _ _ L).
+      assert (Htag : len tag = ss) by apply (lk_mac_len _ _ _ L Hp).
       assert (HX : len X = len plain + pad) by (unfold X; rewrite len_framed, Hlp; lia).
       assert (Hfull : len full = N) by (unfold full, N; rewrite len_app, HX, Htag; lia).
       assert (Hbig : N < U32) by (unfold N; rewrite Hl, Hsh; unfold U32; lia).
@@ -563,4 +563,28 @@ Section Link.
       rewrite len_framed, len_nil, Z.add_0_r, framed_nil. reflexivity.
     Qed.
   End Asym.
+
+  (* ---------- every mode ---------- *)
+  Theorem recv_send :
+    exists sec, apply_security P fx S t plain = Ok sec /\
+                recv P fx R sec = (Ok plain, r_policy R) /\
+                len sec = secured_size S t (len body).
+  Proof.
+    pose proof len_plain as Hl.
+    destruct (lk_combo _ _ _ L) as [[Hn Hm]|[Hp Hm]].
+    - destruct (recv_unsecured Hn) as [H1 H2]. exists plain. repeat split; try assumption.
+      unfold secured_size, secured. rewrite Hn. cbn [is_none negb andb]. fold sh. lia.
+    - assert (Hd : t = OPN \/ t <> OPN) by (clear; destruct t; [right|left|right]; congruence).
+      destruct Hd as [Ht|Ht].
+      + destruct (recv_asym_ok Hp Ht _ (apply_asym Hp Ht)) as [H1 H2].
+        eexists. split; [apply (apply_asym Hp Ht)|]. rewrite (lk_policy _ _ _ L). split; [exact H1|]. rewrite H2.
+        unfold secured_size. rewrite (secured_S Hp). fold sh. rewrite Ht. unfold asym_pad. reflexivity.
+      + destruct Hm as [Hm|Hm].
+        * eexists. split; [apply (apply_sign Hp Ht Hm)|]. split; [apply (recv_sign Hp Ht Hm), (apply_sign Hp Ht Hm)|].
+          rewrite len_app, len_framed, len_nil, (lk_mac_len _ _ _ L Hp).
+          unfold secured_size. rewrite (secured_S Hp), Hm. fold sh. rewrite Hl. clear - Ht. destruct t; try congruence; lia.
+        * destruct (recv_signenc Hp Ht Hm _ (apply_signenc Hp Ht Hm)) as [H1 H2].
+          eexists. split; [apply (apply_signenc Hp Ht Hm)|]. split; [exact H1|]. rewrite H2.
+          unfold secured_size. rewrite (secured_S Hp), Hm. fold sh. unfold sym_pad. rewrite Hl. clear - Ht. destruct t; try congruence; lia.
+  Qed.
 End Link.
